@@ -135,6 +135,8 @@ let fs_setup (toks : string list) : fs_setup =
           match r with
           | kind :: i :: o :: r ->
             let v = (match o with "E" -> Machine.Err Machine.EInvalidInput | "P" -> Machine.Panic Machine.POther | _ -> Machine.Ok (parse_b o)) in
+            (* a compact P<len>:<pattern> input is looked up by its bytes like every other entry *)
+            let i = if String.length i > 0 && i.[0] = 'P' then show_b (parse_b i) else i in
             Hashtbl.replace tbl (kind ^ i) v; go (n - 1) r
           | _ -> failwith "fs: bad codec entry" in
         go (int_of_string nc) r
